@@ -138,6 +138,19 @@ def spellings(meta):
                 out.append((parent + "/%2e%2e/" + quote(segs[-2], safe="") + "/" + quote(segs[-1], safe="") + ("/" if is_dir else ""), "encoded-dotdot", loc))
         if is_dir and segs:
             out.append((enc.rstrip("/"), "no-trailing-slash", loc))
+        if is_dir:
+            # reach directory `loc` from inside each of its child directories: trailing "..", "../", "x/../.."
+            for child in meta["dirs"]:
+                if child != loc and child.startswith(loc) and child[len(loc):].count("/") == 1:
+                    cenc = "/" + "/".join(quote(x, safe="") for x in child.split("/") if x)
+                    out.append((cenc + "/..", "trailing-dotdot", loc))
+                    out.append((cenc + "/../", "trailing-dotdot-slash", loc))
+                    out.append((cenc + "/zz/../..", "trailing-dotdot-deep", loc))
+                    out.append((cenc + "/%2e%2e", "trailing-encoded-dotdot", loc))
+                    out.append((cenc + "/../.", "trailing-dot", loc))
+            if segs:
+                out.append((enc + ".", "trailing-dot-self", loc))
+                out.append((enc.rstrip("/") + "/./", "trailing-dot-slash", loc))
         if not is_dir:
             out.append((enc + ";x", "semicolon-suffix", None))
     return out
